@@ -245,8 +245,9 @@ func (pgh Header) readPositions(in io.Reader) ([]vector3.Float64, error) {
 	}
 
 	// Decode 24-bit fixed point coordinates
-	b := 1 << pgh.FractionalBits
-	scale := 1.0 / float64(b)
+	// 2^-fractionalBits for the whole range of the 8 bit field (an integer
+	// shift is negative at 63 and 0 from 64 on)
+	scale := math.Ldexp(1, -int(pgh.FractionalBits))
 
 	positions := make([]vector3.Float64, pgh.NumPoints)
 	for i := 0; i < len(positions); i++ {
